@@ -130,6 +130,7 @@ func vImplies(a, b bool) bool { return !a || b }
 func vNativeSkip(why string)  {}
 func vRandConcrete(on bool)   {}
 func vTickers(on bool)        {}
+func vTimersEager(on bool)    {}
 func vSched(on bool, maxSwitches int) {}
 func vRace(on bool)                   {}
 func vQuiesce()                       { time.Sleep(20 * time.Millisecond) }
